@@ -38,6 +38,78 @@ HOLES = {
 }
 
 
+PARTIAL_ESCAPES = []     # (qualified name of a compiled pattern, hole)
+
+
+def dollar_escape_gap(pattern):
+    """For an escape `re.sub(pattern, '$$', s)`: a character c such that the
+    '$' in '$c' is NOT doubled ('' = a trailing '$'), or None when every '$'
+    is.  Decided on the pattern's syntax tree: the pattern must be a literal
+    '$' optionally followed by one lookahead."""
+    import re._parser as sre
+    import re._constants as K
+    try:
+        p = sre.parse(pattern)
+    except Exception:
+        raise AnalysisError("cannot parse escape pattern %r" % pattern)
+    items = list(p)
+    if not items or items[0] != (K.LITERAL, ord("$")):
+        raise AnalysisError("escape pattern %r does not start with a literal "
+                            "'$'" % pattern)
+    if len(items) == 1:
+        return None
+    if len(items) != 2 or items[1][0] is not K.ASSERT or items[1][1][0] != 1:
+        raise AnalysisError("escape pattern %r is outside the analysable "
+                            "forms ('\\$' or '\\$(?=...)')" % pattern)
+    # the lookahead: which next characters (or the end) let the '$' through
+    look = items[1][1][1]
+    # strings of length <= 1 that the lookahead accepts as a prefix
+    allowed_end = False
+    allowed = set()
+    alts = look
+    # flatten: BRANCH of alternatives or a single sequence
+    seqs = []
+    if len(alts) == 1 and alts[0][0] is K.BRANCH:
+        seqs = [list(x) for x in alts[0][1][1]]
+    else:
+        seqs = [list(alts)]
+    for sq in seqs:
+        if not sq:
+            return None         # empty alternative: always matches
+        op, av = sq[0]
+        if op is K.AT and av in (K.AT_END, K.AT_END_STRING):
+            allowed_end = True
+        elif op is K.LITERAL:
+            allowed.add(av)
+        elif op is K.IN:
+            neg = False
+            for o2, a2 in av:
+                if o2 is K.NEGATE:
+                    neg = True
+                elif o2 is K.LITERAL:
+                    allowed.add(a2)
+                elif o2 is K.RANGE:
+                    allowed.update(range(a2[0], min(a2[1], 0x2ff) + 1))
+                else:
+                    raise AnalysisError("escape pattern %r: character class "
+                                        "outside the analysable forms"
+                                        % pattern)
+            if neg:
+                raise AnalysisError("escape pattern %r: negated class"
+                                    % pattern)
+        elif op is K.ANY:
+            allowed.update(c for c in range(0x300) if c != 10)
+        else:
+            raise AnalysisError("escape pattern %r: lookahead outside the "
+                                "analysable forms" % pattern)
+    for c in list(range(32, 127)) + [0xe9]:
+        if c not in allowed:
+            return chr(c)
+    if not allowed_end:
+        return ""
+    return None
+
+
 def classify_hole(t):
     """Which stored field a term of Section.__str__ stands for."""
     s = A.fmt(t)
@@ -53,6 +125,15 @@ def classify_hole(t):
             and t[2] == (A.const("$"), A.const("$$")):
         inner, _ = classify_hole(t[1][1])
         return inner, True
+    if t[0] == "call" and t[1][0] == "global" and t[1][1].endswith(".sub") \
+            and len(t[2]) == 2 and t[2][0] == A.const("$$"):
+        # <compiled pattern>.sub('$$', field): an escape that doubles the
+        # '$' the pattern matches; whether that is every '$' is decided by
+        # R1 from the pattern itself
+        inner, _ = classify_hole(t[2][1])
+        if inner is not None:
+            PARTIAL_ESCAPES.append((t[1][1][:-4], inner))
+            return inner, True
     if "self.imports" in s and t[0] in ("index", "elem"):
         return "pkg", False
     if "items()" in s and t[0] in ("index", "elem"):
@@ -201,6 +282,21 @@ def run(ctx):
               "pkg": _passes_replace(ctx, "handle_import"),
               # keys, section types and names are stored as written
               "key": False, "type": False, "name": False}
+    for patq, hole in sorted(set(PARTIAL_ESCAPES)):
+        modname, _, nm = patq.rpartition(".")
+        from rules.c03 import compiled_pattern_in
+        pat = compiled_pattern_in(ctx, modname, nm)
+        gap = dollar_escape_gap(pat)
+        run.check(gap is None, "C17.R1", fn.qualname,
+                  "escape of %s by %s" % (hole, nm),
+                  "the pattern %r matches every '$'" % pat,
+                  "the printer doubles only the '$' that %r matches: the "
+                  "value %r is printed with a lone '$', which the reader "
+                  "rejects or expands" % (pat, "$" + gap if gap is not None
+                                          else ""),
+                  loc=m.loc(fn, fn.node),
+                  witness={"value": "$" + (gap or "")})
+    del PARTIAL_ESCAPES[:]
     for hole, through in sorted(reader.items()):
         run.check((hole in escaped) == through, "C17.R1",
                   fn.qualname, "escape of " + hole,
@@ -304,6 +400,17 @@ def run(ctx):
                       "import template is %s" % text, loc=m.loc(fn, fn.node),
                       nontrivial=False)
 
+    # the reader side of the header round trip: the empty form is recognised
+    # on the text as written between '<' and '>' (before any stripping), so
+    # the printer's "<a b/ >" opens a section named "b/"
+    from rules.common import crosscheck
+    PCq = "ZConfig.cfgparser.ZConfigParser"
+    crosscheck(ctx, "C17.R2", PCq + ".start_section", "ref_cfgparser.py",
+               "start_section", PCq, "reader: empty-form test, then strip, "
+               "then the section pattern")
+    crosscheck(ctx, "C17.R2", PCq + ".end_section", "ref_cfgparser.py",
+               "end_section", PCq, "reader: closer names the open type")
+
     # ------------------------------------------------------------------ R3
     _order(ctx, fn)
 
@@ -381,7 +488,11 @@ def _line_classes(ab):
 def _passes_replace(ctx, handler):
     """Does the stored field of this handler go through self.replace()?"""
     m, P = ctx.model, ctx.program
-    fn = m.fn("ZConfig.cfgparser.ZConfigParser." + handler)
+    # the method the schema-less parser actually runs (its own override, if
+    # it has one, else the inherited one)
+    fn = m.lookup_method(SL + ".Parser", handler)
+    if fn is None:
+        raise AnalysisError("anchor vanished: %s.Parser.%s" % (SL, handler))
     for p in A.Interp(fn, P, try_raises=False).paths():
         for e in p.effects:
             if e[0] == "call" and e[1][1][0] == "attr" and e[1][1][2] in (
